@@ -468,7 +468,7 @@ func runC20(c *Check) {
 			}
 		}
 	}
-	c.Min("R1", "allocations sized by decoded input", n1, 15)
+	c.Min("R1", "allocations sized by decoded input", n1, 10)
 
 	// ---- R2 slicing with computed bounds over stored data
 	n2 := 0
